@@ -235,6 +235,8 @@ pub enum Stmt {
     /// expression statement (calls, if/case in statement position, `<=>`, …)
     Expr(Expr),
     Unreachable,
+    /// verbatim source lines (planted snippets); not executable by the reference model
+    Raw(Vec<String>),
 }
 
 #[derive(Clone, Debug)]
@@ -393,7 +395,7 @@ pub fn walk_stmt(s: &Stmt, f: &mut dyn FnMut(&Expr)) {
         }
         Stmt::Ret(Some(e)) | Stmt::Expr(e) => walk_expr(e, f),
         Stmt::Block(b) => walk_block(b, f),
-        Stmt::Break | Stmt::Continue | Stmt::Ret(None) | Stmt::Unreachable => {}
+        Stmt::Break | Stmt::Continue | Stmt::Ret(None) | Stmt::Unreachable | Stmt::Raw(_) => {}
     }
 }
 
